@@ -23,7 +23,18 @@ type Case struct {
 	Tree   val.V
 	Src    string
 	Values map[string]val.V
+	// transports made earlier by the same process (other texts, other values, possibly unreadable):
+	// they must not influence this one
+	Prior []Prior `json:",omitempty"`
 }
+
+type Prior struct {
+	Src    string
+	Values map[string]val.V
+}
+
+var priorSrcs = []string{"; only a comment", "", "(", ")", "(f $a $b", "\"unterminated", "$a", "[$LIMIT $N $k]", "(do $x1 $missing)",
+	";; $a\n$a", ";; $a 1 2\n$a", ";; $ 1\n1", "{:k $s1", "(f $a) (g $b)", "¬raw", "#{$s1 $s2}", "\ufeff\ufeff1"}
 
 var nameGen = rapid.SampledFrom([]string{"a", "b", "N", "x1", "a-b", "a_b", "0", "1", "LIMIT", "k", "s1", "s2", "missing", "Z-9_z"})
 
@@ -189,6 +200,15 @@ func genCase(t *rapid.T) Case {
 	lead := rapid.SampledFrom([]string{"", "", "\n", ";; $N 99\n", ";; $a \"from a comment\"\n", "; plain comment\n", "\r\n", ";; $LIMIT 10 unless overridden\n"}).Draw(t, "lead")
 	body, _ := gen.Layout(t, tokens(c.Tree, rapid.Bool().Draw(t, "short")))
 	c.Src = lead + body + rapid.SampledFrom(gen.Trailers).Draw(t, "trailer")
+	if gen.Chance(t, "hasprior", 3) {
+		for i, n := 0, 1+gen.Uniform(t, "nprior", 3); i < n; i++ {
+			p := Prior{Src: priorSrcs[gen.Uniform(t, "priorsrc", len(priorSrcs))], Values: map[string]val.V{}}
+			for j, m := 0, 1+gen.Uniform(t, "npv", 4); j < m; j++ {
+				p.Values[nameGen.Draw(t, "pvname")] = gen.Data(t, "pvdata", 2, valOpts)
+			}
+			c.Prior = append(c.Prior, p)
+		}
+	}
 	return c
 }
 
@@ -273,6 +293,20 @@ func check(c Case) pbt.Verdict {
 	for n, v := range c.Values {
 		m["$"+n] = val.To(v)
 	}
+	for _, p := range c.Prior {
+		pm := map[string]types.MalType{}
+		for n, v := range p.Values {
+			pm["$"+n] = val.To(v)
+		}
+		box.Guard(func() (types.MalType, error) {
+			reader.Read_str(p.Src, nil, &types.HashMap{Val: pm})
+			txt, err := lisp.AddPreamble(p.Src, pm)
+			if err != nil {
+				return nil, err
+			}
+			return lisp.READWithPreamble(txt, nil, nil)
+		})
+	}
 	// B: direct token-level substitution
 	rb := box.Guard(func() (types.MalType, error) {
 		return reader.Read_str(c.Src, nil, &types.HashMap{Val: m})
@@ -326,6 +360,9 @@ func check(c Case) pbt.Verdict {
 	}
 	if hot {
 		v.Labels = append(v.Labels, "hot-value")
+	}
+	if len(c.Prior) > 0 {
+		v.Labels = append(v.Labels, "after-earlier-transports")
 	}
 	if strings.Contains(val.Literal(val.L()), "x") {
 		v.Labels = append(v.Labels, "x")
